@@ -578,6 +578,14 @@ class World:
 
             d['setUp'] = setUp
             d['tearDown'] = tearDown
+            if cspec.get('setUpClass'):
+                def setUpClass(cls, how=cspec['setUpClass'], cname=cname):
+                    world.log.emit('ClassFixture', c=cname, how=how)
+                    if how == 'skip':
+                        raise unittest.SkipTest('class fixture skips ' + cname)
+                    if how == 'raise':
+                        raise ValueError('class fixture of ' + cname)
+                d['setUpClass'] = classmethod(setUpClass)
 
             # parametrised instances: several tests of one class and method
             # (equal for unittest, which compares class and method name) that
